@@ -749,7 +749,8 @@ namespace
       {
         // p_create id seed has_output_dir output_dir path
         need(6);
-        st.pworlds[I(f[1])].reset(new wrapper_cpp::WorldBuilderWrapper(f[5], I(f[3]) != 0, f[4] == "-" ? std::string("") : f[4], U(f[2])));
+        std::unique_ptr<wrapper_cpp::WorldBuilderWrapper> w(new wrapper_cpp::WorldBuilderWrapper(f[5], I(f[3]) != 0, f[4] == "-" ? std::string("") : f[4], U(f[2])));
+        st.pworlds[I(f[1])] = std::move(w);
         return "";
       }
     if (op == "p_drop")
@@ -843,7 +844,8 @@ namespace
         std::vector<Point<2>> pts;
         for (size_t i = 3; i+1 < f.size(); i += 2)
           pts.emplace_back(D(f[i]), D(f[i+1]), cs);
-        st.beziers[I(f[1])].reset(new Objects::BezierCurve(pts));
+        std::unique_ptr<Objects::BezierCurve> b(new Objects::BezierCurve(pts));
+        st.beziers[I(f[1])] = std::move(b);
         return "";
       }
     if (op == "bez_eval")
@@ -883,7 +885,8 @@ namespace
         std::vector<double> values, coords;
         for (size_t i = 0; i < n; ++i) values.push_back(D(f.at(3+i)));
         for (size_t i = 3+n; i < f.size(); ++i) coords.push_back(D(f[i]));
-        st.surfaces[I(f[1])].reset(new Objects::Surface(std::make_pair(values, coords)));
+        std::unique_ptr<Objects::Surface> sf(new Objects::Surface(std::make_pair(values, coords)));
+        st.surfaces[I(f[1])] = std::move(sf);
         return H(st.surfaces[I(f[1])]->minimum) + " " + H(st.surfaces[I(f[1])]->maximum) + " " + std::to_string(st.surfaces[I(f[1])]->triangles.size());
       }
     if (op == "surf_q")
